@@ -126,34 +126,13 @@ Definition c01_schema : schema :=
                                                  set_items_one (Some (set_types [k_boolean] empty_schema)) empty_schema] empty_schema))) empty_schema))).
 Definition c01_data : goval := VObj 1 [(50, VFlt false 5); (51, VArr 2 [VBool true])].
 
-Ltac clean_solve :=
-  repeat (unfold local_clean, nullsafe, array_clean, object_clean, comp_clean, bounds_fin, kids, c01_schema, plain_key in *; cbn in *;
-          match goal with
-          | |- _ /\ _ => split
-          | |- forall _, _ => intro
-          | |- _ <> _ => discriminate
-          | |- True => exact I
-          | H : None = Some _ |- _ => discriminate H
-          | H : Some _ = Some _ |- _ => inversion H; subst; clear H
-          | H : _ \/ _ |- _ => destruct H
-          | H : False |- _ => destruct H
-          | H : false = true |- _ => discriminate H
-          | H : ?a = ?b |- False => discriminate H
-          | H : (_, _) = (_, _) |- _ => inversion H; subst; clear H
-          | |- Forall _ [] => constructor
-          | |- Forall _ (_ :: _) => constructor
-          | |- NoDup [] => constructor
-          | |- NoDup (_ :: _) => constructor
-          | |- ~ _ => intro
-          | |- _ = _ => reflexivity
-          | |- _ \/ _ => first [left; reflexivity | right; reflexivity]
-          end).
-
 Example C01_fragment_is_inhabited :
-  clean (fun _ => True) false no_oracles 4 c01_schema /\ jd (fun _ => True) false c01_data /\
-  (forall a b, True -> True -> n_lt z_ops a b = negb (n_le z_ops b a)) /\
+  clean (finP (fun _ => true)) false no_oracles 4 c01_schema /\ jd (finP (fun _ => true)) false c01_data /\
+  (forall a b, finP (fun _ => true) a -> finP (fun _ => true) b -> n_lt z_ops a b = negb (n_le z_ops b a)) /\
   exists r, sv_validate no_oracles z_ops opt0 [] 5 c01_schema [SRoot 0] [SRoot 0] c01_data = Ok r /\ r_valid r = true.
 Proof.
-  split; [clean_solve|]. split; [clean_solve|]. split; [intros a b _ _; cbn; apply Z.ltb_antisym|].
+  split; [apply clean_b_sound; vm_compute; reflexivity|].
+  split; [apply (jd_b_sound (fun _ => true) false 5); vm_compute; reflexivity|].
+  split; [intros a b _ _; cbn; apply Z.ltb_antisym|].
   eexists. split; [vm_compute; reflexivity | reflexivity].
 Qed.
